@@ -7,7 +7,7 @@
   * `labelToks`      the running ring-label assignment: the first occurrence of an unordered pair
                      gets `log.length + 1`, the second occurrence reuses the number
   * `specFrags`      one token list per root, the ring log threaded through the roots
-  * `render`         concatenation of the token texts
+  * `renderToks`         concatenation of the token texts
   * checkers         `parenPrefixOK`, `parenBalanced`, `adjOK`, `labelOwners`: what "syntactically
                      well formed" means on a token list, stated without reference to the writer
 
@@ -128,10 +128,10 @@ def Tok.text : Tok → Str
   | .close => [')']
   | .label n => labelText n
 
-def render (ts : List Tok) : Str := (ts.map Tok.text).flatten
+def renderToks (ts : List Tok) : Str := (ts.map Tok.text).flatten
 
 /-- the SMILES string according to the specification -/
-def specSmiles (g : Mol) : Str := joinWith ['.'] ((specFrags g).map render)
+def specSmiles (g : Mol) : Str := joinWith ['.'] ((specFrags g).map renderToks)
 
 /-! ### what "well formed" means on a token list -/
 
